@@ -5,6 +5,9 @@ package bleve
 import (
 	"context"
 	"errors"
+	"io"
+	"os"
+	"path/filepath"
 
 	"github.com/blevesearch/bleve/v2/document"
 	rt "github.com/blevesearch/bleve/v2/internal/verifrt"
@@ -187,4 +190,68 @@ func VerifH_C11_Close() {
 	rt.Assert(rt.Or(err2 == nil, err2 == ErrorIndexClosed), "a second Close returns normally (nil or the closed error)")
 	rt.Assert(x.closed == 1, "the engine is not closed twice")
 	rt.Cover(err2 == nil, "second-close-returned")
+}
+
+// ---- CopyTo: the copy reader is released whatever the outcome ----
+
+type verifCopyIdx struct {
+	verifIdx
+	r *verifCopyReader
+}
+
+type verifCopyReader struct {
+	index.IndexReader
+	copyErr, closeErr error
+	copied, closed    int
+}
+
+func (x *verifCopyIdx) CopyReader() index.CopyReader {
+	x.touched++
+	return x.r
+}
+func (r *verifCopyReader) CopyTo(d index.Directory) error { r.copied++; return r.copyErr }
+func (r *verifCopyReader) CloseCopyReader() error         { r.closed++; return r.closeErr }
+
+type verifDirectory struct{ writerErr error }
+
+type verifWriter struct{ closed int }
+
+func (w *verifWriter) Write(p []byte) (int, error) { return len(p), nil }
+func (w *verifWriter) Close() error                { w.closed++; return nil }
+func (d *verifDirectory) GetWriter(filePath string) (io.WriteCloser, error) {
+	if d.writerErr != nil {
+		return nil, d.writerErr
+	}
+	return &verifWriter{}, nil
+}
+
+// VerifH_C14_CopyToReleases: indexImpl.CopyTo over a stub engine whose copy reader's CopyTo and
+// CloseCopyReader may each fail, and whose index_meta.json may be missing or unwritable: whatever the
+// outcome, the copy reader obtained for the backup has been closed exactly once when CopyTo returns
+// (a backup that fails part way must not keep the source's segment files pinned for ever), the index
+// mutex is free, and a failure of the data copy is reported.
+func VerifH_C14_CopyToReleases() {
+	verifInitStats()
+	dir, derr := os.MkdirTemp("", "verifcopy")
+	rt.Assert(derr == nil, "temp dir")
+	defer os.RemoveAll(dir)
+	if rt.Choice("meta_file_present", 2) == 1 {
+		rt.Assert(os.WriteFile(filepath.Join(dir, metaFilename), []byte("{}"), 0o600) == nil, "write meta file")
+	}
+	r := &verifCopyReader{copyErr: verifMaybeErr("copy_fails"), closeErr: verifMaybeErr("close_fails")}
+	x := &verifCopyIdx{r: r}
+	i := &indexImpl{i: x, open: true, name: "verif", path: dir, meta: &indexMeta{}, stats: &IndexStat{}}
+	i.stats.i = i
+	d := &verifDirectory{writerErr: verifMaybeErr("writer_fails")}
+	err := i.CopyTo(d)
+	rt.Assert(r.closed == 1, "the copy reader is closed exactly once when CopyTo returns, whatever the outcome")
+	rt.Assert(rt.MutexFree(&i.mutex), "the index mutex is free when CopyTo has returned")
+	if r.copyErr != nil {
+		rt.Assert(err != nil, "a failed data copy is reported")
+	}
+	if r.copyErr == nil && r.closeErr != nil {
+		rt.Assert(err != nil, "a failure to release the copy reader is reported")
+	}
+	rt.Cover(rt.And(r.copyErr != nil, r.closed == 1), "failed-copy-released")
+	rt.Cover(err == nil, "copy-succeeded")
 }
